@@ -28,6 +28,15 @@ CHECKS = {
  "C07": ("model_checking", TECH,
          "Every chunking/Pending/empty-frame schedule with <= bound deviations (plus drip) of every hostile input in the stated alphabets is executed on the real Streaming decoder and compared with an independent longest-valid-prefix parser; first error must be final, no panic, no busy loop.",
          "Inputs outside the alphabets (byte strings <= 5/7 over 6 values; single mutations of valid streams) are not covered; flate2/zstd/prost trusted as reference decoders.", "3/C07"),
+ "C08": ("exploration", EXH,
+         "Every metadata map of the stated alphabet (keys a, a-bin, x-y, bin, -bin, abin, grpc-timeout and the six reserved names; binary values of every length mod 3 over {00,3D,FB,FF}; ASCII value menu; repeated keys; permuted insertion orders) is carried as request metadata, response headers, trailers-only status and trailers status through generated client -> generated server in-process (raw header blocks and the peer's typed view judged with hand-written base64/percent decoders) and once through the real Channel/h2/Server stack; padded and unpadded input on seven receiving routes; every typed accessor/iterator under five key spellings; header+trailer merging against a non-tonic peer.",
+         "exhaustive over the listed alphabets only; forgery is judged by value with menus tonic never sends itself; the transport pass judges the peer's view only.", "3/C08"),
+ "C12": ("exploration", EXH,
+         "InterceptedService over 6720 requests (methods x versions x URIs x header maps incl. repeated/reserved/padded-binary/obs-text x extension x bodies incl. trailers) x 20 accepting actions and 142/267 rejecting statuses, judged by a recorder inner service and a reference multimap model; the reject path requires zero inner calls, 200, application/grpc, empty body and independently decoded status headers equal to Status::add_header; generated with_interceptor client and server are exercised too.",
+         "Headers compared per key in order (cross-key order unconstrained); interceptors are closures over the public Request<()> API.", "3/C12"),
+ "C16": ("model_checking", TECH,
+         "Inner gRPC responses (0..2 frames, trailer-map menu) delivered to the real GrpcWebService under every chunking within the bound (all compositions for short bodies, plus drip) for every Accept value, decoded by an independent grpc-web(-text) decoder: identical message bytes then exactly one 0x80 trailers frame listing every trailer; grpc-web requests (binary and base64 text, every composition into chunks) must reach the inner service as the original gRPC bytes; the full method x version x content-type dispatch table (405 / 400 / untouched pass-through).",
+         "Text responses are accepted as concatenations of independently padded base64 segments; text requests are one padded base64 stream; grpc-web media types with parameters are recorded, not judged.", "3/C16"),
  "C17": ("model_checking", TECH,
          "grpc-web response bodies from an independent encoder (0..2 message frames + trailers frame over a trailer-map menu, truncation at every byte, bad flag at every frame start) delivered through GrpcWebClientService under every chunking (all compositions for bodies <= 21/26 bytes, else <= bound cuts/Pending, plus drip); data and the full trailer multimap must be recovered, malformed bodies must error, no busy loop; a real generated client on top must see the server's status.",
          "Binary grpc-web only (the client layer never requests text); a body cut exactly at a frame boundary is not judged.", "3/C17"),
